@@ -1,6 +1,8 @@
 import PhyVerif.Model.C08
 import PhyVerif.Spec.C08
 import PhyVerif.Lemmas.C08
+import PhyVerif.Model.C08b
+import PhyVerif.Lemmas.C08b
 /-!
 # C08 — curated clusters get the right template provenance and waveforms
 Only property theorems + non-vacuity examples; proofs in `Lemmas/C08.lean`.
@@ -45,6 +47,48 @@ theorem dominant_has_max_count (st sc : List Nat) (nt c : Nat) (hnt : 0 < nt) :
     argmaxNat cnt < nt ∧ ∀ t, t < nt → cnt.getD t 0 ≤ cnt.getD (argmaxNat cnt) 0 :=
   Lemmas.dominant_has_max_count st sc nt c hnt
 
+/-- `np.argmax` rule: the dominant template is the FIRST (lowest-id) template with the maximal spike
+count in the cluster — maximal among all, strictly above every lower-numbered template. -/
+theorem dominant_is_first_max (st sc : List Nat) (nt c : Nat) (hnt : 0 < nt) :
+    let cnt := templateCounts st sc nt c
+    argmaxNat cnt < nt ∧ (∀ t, t < nt → cnt.getD t 0 ≤ cnt.getD (argmaxNat cnt) 0) ∧
+      ∀ t, t < argmaxNat cnt → cnt.getD t 0 < cnt.getD (argmaxNat cnt) 0 :=
+  Lemmas.dominant_is_first_max st sc nt c hnt
+
+/-- `_get_template_from_spikes` (the `np.unique(..., return_counts=True)` + `np.argmax` route behind
+`get_cluster_channels`, model.py:1178-1185, 1229-1232) applied to the spikes of a cluster picks the
+SAME template as the dense histogram route of `get_cluster_mean_waveforms` (model.py:1242-1243): the
+lowest-numbered template with the maximal count.  `hc`: a cluster without spikes makes the real
+`np.argmax` raise ValueError (empty sequence); `hst`: template ids index the template array. -/
+theorem clusterTemplate_eq_dominant (st sc : List Nat) (hlen : st.length = sc.length) (nt : Nat)
+    (hst : ∀ t ∈ st, t < nt) (c : Nat) (hc : c ∈ sc) :
+    clusterTemplate st sc c = argmaxNat (templateCounts st sc nt c) :=
+  Lemmas.clusterTemplate_eq_dominant st sc hlen nt hst c hc
+
+/-- The public accessor `get_cluster_mean_waveforms(c)` (model.py:1239-1261): the returned channel
+list is the dominant template's, the returned block has `ns` rows of that width, and its entry
+(sample `s`, k-th returned channel) is the spike-count-weighted mean — over the templates the
+cluster's spikes came from, with a positive total weight — of the templates' values on that channel,
+a template contributing ZERO where its own channel list does not contain the channel.
+`hc`: for an id without spikes the real accessor raises ZeroDivisionError ("Weights sum to zero",
+`np.average`) while the model divides by zero (`x / 0 = 0`) — excluded here, not claimed.
+`_hch`: a listed channel ≥ nc makes the real code raise IndexError (`data[i][:, b.channel_ids]`). -/
+theorem clusterMean_spec (W : List Mat) (chans : List (List Nat)) (st sc : List Nat)
+    (hst : ∀ t ∈ st, t < W.length) (ns nc c : Nat)
+    (hc : templatesOf st sc c ≠ [])
+    (hW : ∀ M ∈ W, M.length = ns ∧ ∀ row ∈ M, row.length = nc)
+    (_hch : ∀ l ∈ chans, ∀ ch ∈ l, ch < nc) :
+    (clusterMean W chans st sc c).1 = chans.getD (argmaxNat (templateCounts st sc W.length c)) [] ∧
+    (clusterMean W chans st sc c).2.length = ns ∧
+    (∀ row ∈ (clusterMean W chans st sc c).2,
+      row.length = (chans.getD (argmaxNat (templateCounts st sc W.length c)) []).length) ∧
+    0 < ((templatesOf st sc c).map fun t => countOf st sc t c).sum ∧
+    ∀ s k, s < ns → (hk : k < (chans.getD (argmaxNat (templateCounts st sc W.length c)) []).length) →
+      (((clusterMean W chans st sc c).2).getD s []).getD k 0 =
+        weightedMean W chans st sc c s
+          ((chans.getD (argmaxNat (templateCounts st sc W.length c)) [])[k]) :=
+  Lemmas.clusterMean_spec W chans st sc hst ns nc c hc hW
+
 /-- When cluster and template assignments coincide the cluster waveforms are the template
 waveforms and there are as many clusters as templates. -/
 theorem uncurated_identity (W : List Mat) (chans : List (List Nat)) (st : List Nat) (ns nc : Nat) :
@@ -66,5 +110,17 @@ example :
       [0, 0, 1, 2, 2, 1] [4, 0, 4, 2, 2, 4] 2 2 =
     [[[1, 2], [3, 4]], [[0, 0], [0, 0]], [[5, 5], [6, 6]], [[0, 0], [0, 0]], [[0, 14], [0, 28]]] := by
   decide +kernel
+
+-- count tie between templates 0 and 2 (two spikes each) in cluster 4: the lower id wins on both routes
+example : templateCounts [0, 0, 1, 2, 2, 1] [4, 4, 4, 4, 4, 0] 3 4 = [2, 1, 2] := by decide
+example : argmaxNat (templateCounts [0, 0, 1, 2, 2, 1] [4, 4, 4, 4, 4, 0] 3 4) = 0 := by decide
+example : clusterTemplate [0, 0, 1, 2, 2, 1] [4, 4, 4, 4, 4, 0] 4 = 0 := by decide
+example : clusterTemplate [2, 2, 1, 0, 0, 1] [4, 4, 4, 4, 4, 0] 4 = 0 := by decide
+-- the public accessor: channels of the dominant template 1 (two of three spikes), template 0 does not
+-- list channel 1 and contributes zero there: (1*0 + 2*20)/3, (1*1 + 2*10)/3
+example :
+    clusterMean [[[1, 2], [3, 4]], [[10, 20], [30, 40]]] [[0], [1, 0]] [0, 1, 1] [5, 5, 5] 5 =
+      ([1, 0], [[40 / 3, 7], [80 / 3, 21]]) := by decide +kernel
+example : templatesOf [0, 1, 1] [5, 5, 5] 5 ≠ [] := by decide
 
 end PhyVerif.C08
